@@ -26,6 +26,10 @@ CLAIMED = {
    text="Histories of edits, runs, crashes (before any file operation, inside any write), ENOSPC short writes and I/O errors over generated modules; after every fault-free run exit status and derived.gen.go bytes must equal those of a from-scratch run on the same sources under the same map plan; per history, crash points of the final run and truncations of the previous/new output to first-k bytes are enumerated (sampled in the quick tier) and each must be recovered from in one run. Reference model = the generator itself from scratch, which is exactly what the property states.", note=GEN_NOTE+" Crash model: process crash (written bytes survive)."),
  "C08": dict(engine="gensim", cat="exploration", ref="DESIGN.md sections 4, 5.C08", tech="deterministic simulation: same world under permuted map iteration, package order, GOMAXPROCS and invocation spelling; byte equality",
    text="Every generated module is executed 5-9 times from one initial disk state, the executions differing only in simulator-owned choices (map-iteration permutation for every range over a map in goderive, permutation of loader.InitialPackages, GOMAXPROCS, cwd/spelling/grouping/order of package arguments); each package's derived.gen.go must be byte-identical across all of them. The seam turns a one-in-a-dozen flake into a replayable pair of executions.", note=GEN_NOTE),
+ "C10": dict(engine="gensim", cat="exploration", ref="DESIGN.md sections 4, 5.C10", tech="deterministic simulation: disk snapshots around one run under injected I/O faults and error outcomes; independent rewrite oracle",
+   text="The whole module is snapshotted before and after one simulated goderive run that ends, by the simulator's choice, in success, a generator error, a load error or an injected I/O fault (EIO/EACCES/EROFS/ENOSPC on create, write, close or remove of derived.gen.go, short writes); without flags nothing but derived.gen.go of processed packages may differ. Under -autoname/-dedup on modules with injected clashes each user file must equal gofmt(original with exactly the renamed call identifiers substituted), computed from an independent go/parser parse, and files without a renamed call must be byte-identical.", note=GEN_NOTE),
+ "C11": dict(engine="gensim", cat="exploration", ref="DESIGN.md sections 4, 5.C11", tech="deterministic simulation: clash worlds under all four flag combinations and permuted map order, with and without a prior derived file; independent clash predicate + go/types call-site check",
+   text="Modules with conflicts and duplicates (small name x type x plugin alphabet, and random modules with injected clashes and hand-written called functions in the fresh-name path), optionally starting from a derived.gen.go generated for an earlier clash-free version, are executed under all four -autoname/-dedup combinations and two map-iteration plans; the exit status must be what the statement prescribes from an independently computed clash predicate and must not depend on map order; after a successful flagged run the package must type-check, every call site's callee must have parameter types identical to the argument types, and after -dedup no plugin has two functions with one parameter list.", note=GEN_NOTE),
 }
 PENDING = {
  "C09":"claimed in DESIGN.md (gensim); check not built yet in this commit",
